@@ -1,6 +1,7 @@
 package main
 
 import (
+	"bytes"
 	"encoding/json"
 	"fmt"
 	"math/big"
@@ -72,6 +73,9 @@ func c11Hasher(name string) (hash.Hasher, error) {
 		return hash.NewSHA3_384(), nil
 	case "keccak_256":
 		return hash.NewKeccak_256(), nil
+	}
+	if strings.HasPrefix(name, "fixed:") {
+		return &c11Fixed{unhx(name[len("fixed:"):])}, nil
 	}
 	if strings.HasPrefix(name, "kmac128_") {
 		n, err := strconv.Atoi(name[len("kmac128_"):])
@@ -189,6 +193,16 @@ func c11Gen(tier string, r *rand.Rand) []Case {
 				continue
 			}
 			v("length", c, "sha2_256", fmt.Sprintf("len:%d", l), 8)
+		}
+		// Sign then Verify with digests of special shapes (fixed-output hashers): leading zero bytes,
+		// all zero, all 0xff, longer than 32 bytes with a zero first byte (only the leftmost 32 bytes count)
+		for _, dg := range [][]byte{
+			append([]byte{0}, rbytes(r, 31)...), append([]byte{0, 0, 0}, rbytes(r, 29)...),
+			append([]byte{0}, rbytes(r, 47)...), append([]byte{0, 0}, rbytes(r, 62)...),
+			make([]byte, 32), make([]byte, 48), bytes.Repeat([]byte{0xff}, 32), bytes.Repeat([]byte{0xff}, 64),
+			append(rbytes(r, 32), 0, 0, 0, 0),
+		} {
+			v("sign-verify-digest-shape", c, "fixed:"+hx(dg), "none", 8)
 		}
 		// the hasher is judged first, whatever the signature looks like: wrong-length signatures with
 		// refused hashers
